@@ -117,12 +117,13 @@ type rigRecord struct {
 }
 
 type rig struct {
-	t     *testing.T
-	cfg   rigCfg
-	links []*vk.Link
-	sesh  [2]*Session
-	key   [32]byte
-	ref   *vk.RefCodec
+	recCache map[[2]int]*rigRecCache
+	t        *testing.T
+	cfg      rigCfg
+	links    []*vk.Link
+	sesh     [2]*Session
+	key      [32]byte
+	ref      *vk.RefCodec
 
 	mu      sync.Mutex
 	streams [2]map[uint32]*rigStream
@@ -296,11 +297,12 @@ func dirOf(writerSide int) vk.Dir {
 	return vk.BtoA
 }
 
-// records parses the tap of one link/direction into frame metadata.
+// records parses the tap of one link/direction into frame metadata. The tap only grows, so the parse is incremental
+// (a multi-megabyte wire would otherwise be re-parsed after every operation).
 func (r *rig) records(li int, d vk.Dir) []rigRecord {
-	wire := r.links[li].Wire(d)
-	var out []rigRecord
 	if r.cfg.Plain {
+		wire := r.links[li].Wire(d)
+		var out []rigRecord
 		for _, e := range r.links[li].Events(d) {
 			msg := wire[e.Off : e.Off+int64(e.Len)]
 			sid, seq, cl, ex, ok := r.ref.PeekHeader(msg)
@@ -308,12 +310,33 @@ func (r *rig) records(li int, d vk.Dir) []rigRecord {
 		}
 		return out
 	}
-	recs, _ := vk.SplitTLSRecords(wire)
-	for _, rec := range recs {
-		sid, seq, cl, ex, ok := r.ref.PeekHeader(rec.Body)
-		out = append(out, rigRecord{sid, seq, cl, int64(rec.Off + 5 + len(rec.Body)), ok, len(rec.Body) - 14 - int(ex)})
+	if r.recCache == nil {
+		r.recCache = map[[2]int]*rigRecCache{}
 	}
-	return out
+	k := [2]int{li, int(d)}
+	c := r.recCache[k]
+	if c == nil {
+		c = &rigRecCache{}
+		r.recCache[k] = c
+	}
+	if c.upTo < r.links[li].WireLen(d) {
+		tail := r.links[li].WireFrom(d, c.upTo)
+		recs, _ := vk.SplitTLSRecords(tail)
+		for _, rec := range recs {
+			sid, seq, cl, ex, ok := r.ref.PeekHeader(rec.Body)
+			end := c.upTo + rec.Off + 5 + len(rec.Body)
+			c.recs = append(c.recs, rigRecord{sid, seq, cl, int64(end), ok, len(rec.Body) - 14 - int(ex)})
+		}
+		if n := len(recs); n > 0 {
+			c.upTo += recs[n-1].Off + 5 + len(recs[n-1].Body)
+		}
+	}
+	return c.recs
+}
+
+type rigRecCache struct {
+	upTo int
+	recs []rigRecord
 }
 
 // noteDelivery updates the non-triviality counters after bytes were delivered on link li in direction d.
